@@ -655,6 +655,7 @@ def check_sequence(res, key, n, m, count, record=True):
     and no nonce may repeat.  -> index of the first bad message or None"""
     c = construct(key, n, m)
     seen = set()
+    held = []          # (index, the object encrypt returned, a copy of its bytes at that moment, the text)
     for i in range(count):
         text = seq_text(i)
         before = len(res.failures)
@@ -671,6 +672,19 @@ def check_sequence(res, key, n, m, count, record=True):
             fail(res, "sequence-nonce-reused", "message %d of one instance reuses the nonce of an earlier message" % (i + 1), case)
             return i
         seen.add(nf)
+        if i < 12:
+            try:
+                raw = c.encrypt(text_of(text))          # kept as returned (not copied) while later messages are encrypted
+                held.append((i, raw, bytes(raw), text))
+            except Exception:   # noqa  reported by the round trip above
+                pass
+        for (j, raw, snap, t0) in held:
+            if bytes(raw) != snap:
+                fail(res, "sequence-earlier-ciphertext-changed",
+                     "the object returned by encrypt() for message %d changed when message %d was encrypted (outputs "
+                     "share a buffer): an encrypted message held by the caller no longer decrypts to its text" % (j + 1, i + 1),
+                     dict(kind="sequence", key=key, nonce_length=n, mac_length=m, count=i + 1, text=text))
+                return i
     return None
 
 
